@@ -294,9 +294,9 @@ class Filer(hioing.Mixin):
         if os.path.isabs(name):
             raise hioing.FilerError(f"Not relative {name=} path.")
 
-        for tail in (tailDirPath, altTailDirPath):  # path must stay inside head
+        for tail in (tailDirPath, altTailDirPath):  # path must stay strictly inside head
             rel = os.path.normpath(os.path.join(tail, base, name))
-            if rel == os.pardir or rel.startswith(os.pardir + os.sep):
+            if rel in (os.curdir, os.pardir) or rel.startswith(os.pardir + os.sep):
                 raise hioing.FilerError(f"Path of {base=} and {name=} outside "
                                         f"head directory.")
 
